@@ -36,7 +36,8 @@ class Plan:
                  w: Optional[Tuple[int, int, int]] = None, fill: float = 0.0, head: bool = False,
                  full_index: bool = False, omit_index: bool = False, xfilter: str = "none",
                  ofilter: bool = False, containers_in_table: bool = True, order_seed: int = 0,
-                 trailer_same_line: bool = False, f_for_hidden: bool = True, first_pad: int = 0):
+                 trailer_same_line: bool = False, f_for_hidden: bool = True, first_pad: int = 0,
+                 self_prev: bool = False):
         self.form = form                    # table | stream | hybrid
         self.groups = groups or []          # object-stream groups (lists of objnums), stream/hybrid only
         self.w = w                          # None = minimal widths
@@ -51,6 +52,7 @@ class Plan:
         self.trailer_same_line = trailer_same_line
         self.f_for_hidden = f_for_hidden    # hybrid: hidden objects appear as `f` in the table
         self.first_pad = first_pad          # extra white space inside object streams before /First
+        self.self_prev = self_prev          # oldest revision only: /Prev pointing at its own section (circular chain)
         self.fill_gaps: List[int] = []      # numbers to list as free (filled by the generator)
 
 
@@ -213,10 +215,13 @@ def write_history(revs: List[Rev], plans: List[Plan], eol: bytes = b"\n", entry_
             d = {"Type": "XRef", "Size": size, "W": list(w)}
             if index is not None:
                 d["Index"] = index
+            stream_prev = prev_pos
             if form == "stream":
                 d.update(trailer_dict({}))
-                if prev_pos is not None:
-                    d["Prev"] = prev_pos
+                if prev_pos is None and plan.self_prev:
+                    stream_prev = xs_pos
+                if stream_prev is not None:
+                    d["Prev"] = stream_prev
             canon_d = dict(d)
             raw = data
             if plan.xfilter == "flate":
@@ -229,7 +234,7 @@ def write_history(revs: List[Rev], plans: List[Plan], eol: bytes = b"\n", entry_
             emit_obj(xn, Stream(d, raw), 0, {"kind": "xrefstm", "rev": k, "val": Stream(canon_d, data)})
             parts.append({"kind": "stream", "pos": xs_pos, "objnum": xn, "size": size, "index": index, "w": list(w),
                           "data": data, "rows": [(n,) + rows[n] for n in nums],
-                          "prev": prev_pos if form == "stream" else None, "xrefstm": None,
+                          "prev": stream_prev if form == "stream" else None, "xrefstm": None,
                           "root": rev.root if form == "stream" else None,
                           "info": rev.info if form == "stream" else None})
         if form in ("table", "hybrid"):
@@ -260,14 +265,17 @@ def write_history(revs: List[Rev], plans: List[Plan], eol: bytes = b"\n", entry_
                     out.extend(b"%010d %05d %s" % (p, g, u.encode()) + entry_eol)
             tr_start = len(out)
             extra: Dict[str, Any] = {}
-            if prev_pos is not None:
-                extra["Prev"] = prev_pos
+            table_prev = prev_pos
+            if prev_pos is None and plan.self_prev:
+                table_prev = tpos
+            if table_prev is not None:
+                extra["Prev"] = table_prev
             if form == "hybrid":
                 extra["XRefStm"] = xs_pos
             out.extend(b"trailer" + (b" " if plan.trailer_same_line else eol) + ser(trailer_dict(extra)) + eol)
             part = {"kind": "table", "pos": tpos, "after_kw": body_start, "trailer_at": tr_start,
                     "entries": [(n,) + ent[n] for n in sorted(ent)],
-                    "prev": prev_pos, "xrefstm": xs_pos if form == "hybrid" else None,
+                    "prev": table_prev, "xrefstm": xs_pos if form == "hybrid" else None,
                     "root": rev.root, "info": rev.info}
             parts.insert(0, part)
             xpos = tpos
